@@ -355,4 +355,7 @@ pub fn run(rc: &mut RunCtx) {
     rc.require_label("decisions", "verdict_reject_reject", 200_000);
     rc.require_label("decisions", "reader_decisions", 50_000);
     rc.require_label("decisions", "reader_decisions_with_unknown_size_chain", 10_000);
+    if !rc.quick() {
+        rc.run_fuzz(Some(STAGES[0]), 300);
+    }
 }
